@@ -32,6 +32,10 @@ def c20_1(ctx):
     if pr is None or N(pr.value) != NS('[(value, {key: defaults[key]}) for key, value in with_defaults.items()]'):
         ctx.fail(fn, pr or fn.node, 'each defaulted input is not paired with its own default')
     g = ctx.repo.fn('_perdictable:_join_dictable_with_defaults')
+    none_not_falsy(ctx, g, ['d1', 'd2', 'd'], 'a table\'s truth value is its row count: an EMPTY inner join is not "no table" - treating it so returns the defaulted table as is, with keys that are not in every input')
+    nn = [N(s.test) for s in g.body if isinstance(s, ast.If)] + [N(t) for s in g.body if isinstance(s, ast.If) for t, b in if_chain(s) if t is not None]
+    if NS('d1 is None') not in nn or NS('d2 is None') not in nn:
+        ctx.fail(g, g.node, 'absence of one side of the default join is not tested with `is None`')
     ctx.count(1, g.where())
     src = [U(s) for s in ast.walk(g.node) if isinstance(s, (ast.Assign, ast.AugAssign))]
     need = ['d = d1 * d2', 'd += (d2 / d1)(**def1)', 'd += (d1 / d2)(**def2)']
@@ -62,6 +66,12 @@ def c20_2(ctx):
     ctx.count(1)
     if not rr or N(rr[-1].value) != 'res.sort(as_list(on))':
         ctx.fail(fn, rr[-1] if rr else fn.node, 'the joined rows are not sorted by the key columns')
+    pm = parent_map(fn.node)
+    for r0 in rr:
+        if N(r0.value) not in ('res.sort(as_list(on))', 'dictable(non_dictables)'):
+            g = pm.get(r0)
+            ctx.fail(fn, g if isinstance(g, ast.If) else r0, 'join can return `%s` without sorting by key%s: the merge of tables carrying different subsets of the key columns is not in key order' % (U(r0.value), (' (when `%s`)' % U(g.test)) if isinstance(g, ast.If) else ''),
+                     witness='two key columns, the last table merged carries only one of them')
     e = [r for r in rr if N(r.value) == 'dictable(non_dictables)']
     if not e:
         ctx.fail(fn, fn.node, 'all-scalar inputs no longer give a single-row table')
